@@ -213,6 +213,15 @@ def check(ctx):
             if o["rule"] == "R03.3" and "walks-only-the-live-list" in o["key"]:
                 ctx.ob("R10.8", o["key"], o["ok"], o["site"], o["detail"], o["nontrivial"])
         if not getattr(ctx, "deferred_infra", None): ctx.floor("R10.8", 5)
+    # ------------------------------------------------------------------ R10.9 a listener told to end still yields what was accepted for it before: the end flag is consulted
+    # only when its queue answered empty (shared with C06 R06.2)
+    if getattr(ctx, "pid", None) == "C10":
+        sub6 = util.fresh_ctx(ctx, "C06")
+        util.guarded(ctx, importlib.import_module("props.C06").check, sub6)
+        for o in sub6.obs:
+            if o["rule"] == "R06.2":
+                ctx.ob("R10.9", o["key"], o["ok"], o["site"], o["detail"], o["nontrivial"])
+        if not getattr(ctx, "deferred_infra", None): ctx.floor("R10.9", 2)
     # ------------------------------------------------------------------ R10.7 cursor discipline of the rebuild: no gap at the front, no stale tail
     S.check_rebuild_cursor(ctx, "R10.7")
     ctx.floor("R10.7", 2)
